@@ -76,26 +76,107 @@ func nameRules(c *Ctx, want map[string]bool) {
 	// tempfile.Create: name = base + "-" + random [+ ".v1"]
 	createTpl := map[string]string{}
 	if fi := c.P.MustFunc(R, "R04e", "tempfile.(*Creator).Create"); fi != nil {
-		env := newTplEnv(fi.Pkg.TypesInfo, &ast.BlockStmt{})
-		ast.Inspect(fi.Decl.Body, func(n ast.Node) bool {
-			is, ok := n.(*ast.IfStmt)
-			if !ok || exprStr(is.Cond) != "legacy" {
-				return true
+		tinfo := fi.Pkg.TypesInfo
+		env := newTplEnv(tinfo, &ast.BlockStmt{})
+		// roles: the base is Create's string parameter, legacy its bool parameter, the random part a
+		// local produced by a method of the creator; the name is what os.OpenFile is given
+		var baseObj, legacyObj, randomObj, nameObj types.Object
+		for i := 0; ; i++ {
+			po := paramObj(fi, i)
+			if po == nil {
+				break
 			}
-			get := func(b *ast.BlockStmt) string {
-				for _, st := range b.List {
-					if as, ok := st.(*ast.AssignStmt); ok && exprStr(as.Lhs[0]) == "name" {
-						return env.eval(as.Rhs[0])
+			switch po.Type().String() {
+			case "string":
+				baseObj = po
+			case "bool":
+				legacyObj = po
+			}
+		}
+		var nameDef ast.Expr
+		ast.Inspect(fi.Decl.Body, func(n ast.Node) bool {
+			switch n := n.(type) {
+			case *ast.AssignStmt:
+				if len(n.Lhs) == 1 && len(n.Rhs) == 1 {
+					if call, ok := ast.Unparen(n.Rhs[0]).(*ast.CallExpr); ok {
+						if sel, ok := call.Fun.(*ast.SelectorExpr); ok && tinfo.TypeOf(call) != nil && tinfo.TypeOf(call).String() == "string" {
+							if ro := identObj(tinfo, sel.X); ro != nil && fi.Decl.Recv != nil && len(fi.Decl.Recv.List[0].Names) == 1 && ro == tinfo.Defs[fi.Decl.Recv.List[0].Names[0]] {
+								randomObj = identObj(tinfo, n.Lhs[0])
+							}
+						}
 					}
 				}
-				return ""
-			}
-			createTpl["true"] = get(is.Body)
-			if el, ok := is.Else.(*ast.BlockStmt); ok {
-				createTpl["false"] = get(el)
+			case *ast.CallExpr:
+				if fullCalleeName(tinfo, n) == "os.OpenFile" && len(n.Args) == 3 {
+					nameObj = identObj(tinfo, n.Args[0])
+				}
 			}
 			return true
 		})
+		norm := func(tpl string) string {
+			if baseObj != nil {
+				tpl = strings.ReplaceAll(tpl, "<"+baseObj.Name()+">", "<base>")
+			}
+			if randomObj != nil {
+				tpl = strings.ReplaceAll(tpl, "<"+randomObj.Name()+">", "<random>")
+			}
+			return tpl
+		}
+		ast.Inspect(fi.Decl.Body, func(n ast.Node) bool {
+			switch n := n.(type) {
+			case *ast.IfStmt:
+				// if legacy { name = ... } else { name = ... }
+				if legacyObj == nil || identObj(tinfo, n.Cond) != legacyObj {
+					return true
+				}
+				get := func(b *ast.BlockStmt) string {
+					for _, st := range b.List {
+						if as, ok := st.(*ast.AssignStmt); ok && len(as.Lhs) == 1 && nameObj != nil && identObj(tinfo, as.Lhs[0]) == nameObj {
+							return norm(env.eval(as.Rhs[0]))
+						}
+					}
+					return ""
+				}
+				createTpl["true"] = get(n.Body)
+				if el, ok := n.Else.(*ast.BlockStmt); ok {
+					createTpl["false"] = get(el)
+				}
+			case *ast.AssignStmt:
+				if len(n.Lhs) == 1 && len(n.Rhs) == 1 && nameObj != nil && identObj(tinfo, n.Lhs[0]) == nameObj {
+					nameDef = n.Rhs[0]
+				}
+			}
+			return true
+		})
+		// name := helper(base, random, legacy): the helper's templates per value of its bool parameter
+		if createTpl["true"] == "" && createTpl["false"] == "" && nameDef != nil {
+			if call, ok := ast.Unparen(nameDef).(*ast.CallExpr); ok {
+				if h := c.P.Func(calleeKey(tinfo, call)); h != nil && h.Pkg == fi.Pkg && h.Decl.Body != nil {
+					for _, tc := range templatesOf(c, c.P.FlowOf(h), "R04e") {
+						tpl := tc.Tpl
+						val := ""
+						for i, a := range call.Args {
+							po := paramObj(h, i)
+							if po == nil {
+								continue
+							}
+							if po.Type().String() == "bool" {
+								if strings.Contains(tc.Cond, po.Name()+"=true") {
+									val = "true"
+								} else if strings.Contains(tc.Cond, po.Name()+"=false") {
+									val = "false"
+								}
+								continue
+							}
+							tpl = strings.ReplaceAll(tpl, "<"+po.Name()+">", env.eval(a))
+						}
+						if val != "" {
+							createTpl[val] = norm(tpl)
+						}
+					}
+				}
+			}
+		}
 		// created exclusively: O_CREATE|O_EXCL
 		excl := false
 		if o, ok := fi.Pkg.Types.Scope().Lookup("flags").(*types.Const); ok {
